@@ -59,28 +59,32 @@ theorem iter_post (b : RS → R (Bool × RS)) (hb : ∀ s, Post (b s) (BodyQ s))
       intro s hl
       rw [iter]
       split
+      · exact ⟨fun w hw => (by cases hw), fun a ha => (by cases ha)⟩
+      split
       · rename_i e he
         refine ⟨fun w hw => ?_, fun a ha => (by cases ha)⟩
         cases hw
-        exact (hb s).1 w he
+        exact (hb _).1 w he
       · rename_i s1 h1
-        exact Post.ok ((hb s).2 _ h1).1
+        exact Post.ok ((hb _).2 _ h1).1
       · rename_i s1 h1
-        have := ((hb s).2 _ h1).2 rfl
+        have := ((hb _).2 _ h1).2 rfl
         simp only at this
         omega
     | succ n ih =>
       intro s hl
       rw [iter]
       split
+      · exact ⟨fun w hw => (by cases hw), fun a ha => (by cases ha)⟩
+      split
       · rename_i e he
         refine ⟨fun w hw => ?_, fun a ha => (by cases ha)⟩
         cases hw
-        exact (hb s).1 w he
+        exact (hb _).1 w he
       · rename_i s1 h1
-        exact Post.ok ((hb s).2 _ h1).1
+        exact Post.ok ((hb _).2 _ h1).1
       · rename_i s1 h1
-        have hlt := ((hb s).2 _ h1).2 rfl
+        have hlt := ((hb _).2 _ h1).2 rfl
         simp only at hlt
         rw [if_pos hlt]
         refine Post.mono (ih s1 (by omega)) ?_
